@@ -5,6 +5,7 @@
    square proofs are about E_a_1 / E_b_1 themselves, so sub-proofs cannot be transplanted onto a freely chosen E_?_1.
    Rejection of edited proofs / other bounds, bases, modulus: correspondence + sweep. *)
 From ZK Require Import Cl ClArith ClSig ClMore ClConsts ClMask ClGroup ClBoudot.
+From ZK Require Import ClRange.
 
 Theorem C16_boudot_accepts :
   forall BP p g h n rmin rmax,
@@ -87,3 +88,23 @@ Check (C16_gp_add :
   forall n : Z, (0 < n)%Z -> forall h hi : Z, Zdiv.eqm n (h * hi) 1 ->
   forall e1 e2 : Z, Zdiv.eqm n (gp n h hi (e1 + e2)) (gp n h hi e1 * gp n h hi e2)).
 Print Assumptions C16_gp_add.
+
+(* the honest prover cannot produce a proof for a value below the interval ... *)
+Theorem C16_boudot_prove_below_fails :
+  forall BP, (0 <= b_l BP + b_t BP)%Z -> forall value c g h n rmin rmax ds p ds',
+  (value < rmin)%Z -> boudot_prove BP value c g h n rmin rmax ds <> Ok (p, ds').
+Proof. exact boudot_prove_below_fails. Qed.
+Check (C16_boudot_prove_below_fails :
+  forall BP, (0 <= b_l BP + b_t BP)%Z -> forall value c g h n rmin rmax ds p ds',
+  (value < rmin)%Z -> boudot_prove BP value c g h n rmin rmax ds <> Ok (p, ds')).
+Print Assumptions C16_boudot_prove_below_fails.
+
+(* ... nor above it (for every modulus, bases, randomness and draws) *)
+Theorem C16_boudot_prove_above_fails :
+  forall BP, (0 <= b_l BP + b_t BP)%Z -> forall value c g h n rmin rmax ds p ds',
+  (rmax < value)%Z -> boudot_prove BP value c g h n rmin rmax ds <> Ok (p, ds').
+Proof. exact boudot_prove_above_fails. Qed.
+Check (C16_boudot_prove_above_fails :
+  forall BP, (0 <= b_l BP + b_t BP)%Z -> forall value c g h n rmin rmax ds p ds',
+  (rmax < value)%Z -> boudot_prove BP value c g h n rmin rmax ds <> Ok (p, ds')).
+Print Assumptions C16_boudot_prove_above_fails.
